@@ -264,7 +264,7 @@ func c08check(w *Worker, pool *c08pool, r *Rng, idx int64) (produced string) {
 
 func runC08(c *Ctx) {
 	depth := int(c.pick(6, 40))
-	perGen := c.pick(60000, 500000)
+	perGen := c.pick(150000, 500000)
 	seedRng := newRng(c.Seed, 0xc08)
 	pool := &c08pool{items: c08seed(seedRng, 400)}
 	for gen := 0; gen < depth; gen++ {
